@@ -2,7 +2,7 @@
 from ..drivers import codec
 
 
-def plan_codec(tier, seed, oracles, quick_n=360, thorough_budget=45, scr_k=1, sweep_n=(5, 8),
+def plan_codec(tier, seed, oracles, quick_n=1400, thorough_budget=45, scr_k=1, sweep_n=(5, 8),
                shapes=False, extra=None):
     orc = list(oracles)
     shards = []
